@@ -24,6 +24,12 @@ theorem rowSize_tied :
 theorem tableItem_tied :
     Generated.Compression.tableItemSizes.map Except.ok = [tableItem 1, tableItem 2] := by decide
 
+/-- The codec modules keep no state between calls: no `global`/`nonlocal`, no module-level mutable object read
+by a function, no memoising decorator, no mutable default (regenerated from the AST of compression/__init__.py
+and rle.py). This is what entitles the model to describe `compress`/`decompress` as functions of their arguments:
+every round-trip theorem below is about one call and says nothing about a history of calls otherwise. -/
+theorem codec_stateless_tied : Generated.Compression.codecModuleState = [] := by decide
+
 /-- modulus and width factor per depth, in both directions, are the model's. -/
 theorem predParams_tied :
     Generated.Compression.predParamsEnc = [(8, 256, 1), (16, 65536, 1), (32, 256, 4)] ∧
